@@ -370,6 +370,39 @@ func runC11(c *Ctx) {
 		}
 	}
 	checkHolderLookup(c, "offer")
+	// (free) a DECLINE frees the lease of the client that sent it: the lease whose state handleDecline sets to Free is
+	// found through the sender's client identifier (findOrCreate(getClientID(..))), not through the declined address (a
+	// look-up by address lets a second client identifier on the same hardware address free another client's binding)
+	if hd := c.P.Method(dhcpRel, "Handler", "handleDecline"); hd != nil {
+		n := 0
+		core.EachInstr(hd, func(i ssa.Instruction) {
+			st, ok := i.(*ssa.Store)
+			if !ok {
+				return
+			}
+			fa, ok := st.Addr.(*ssa.FieldAddr)
+			if !ok || !strings.HasSuffix(fieldOwner(fa), "Lease.State") || norm(st.Val) != "0" {
+				return
+			}
+			n++
+			byID := false
+			for w := range dataSlice(hd, fa.X) {
+				if call, isC := w.(*ssa.Call); isC && call.Call.StaticCallee() != nil && call.Call.StaticCallee().Name() == "getClientID" {
+					byID = true
+				}
+			}
+			stt, det := core.Proved, ""
+			if !byID {
+				stt = core.Violated
+				det = "handleDecline frees " + norm(fa.X) + ", which is not looked up through the sender's client identifier: a DECLINE naming an address frees whatever lease records that address, also another client's acknowledged binding"
+			}
+			r.Add(core.Obligation{Rule: "free", Key: "free handleDecline frees the sender's own lease", Func: core.FuncName(hd), Pos: c.P.Pos(core.PosOf(i)), Status: stt,
+				Basis: "the freed lease derives from getClientID(p, options)", Detail: det})
+		})
+		if n == 0 {
+			r.Add(core.Obligation{Rule: "free", Key: "free handleDecline frees the sender's own lease", Func: core.FuncName(hd), Status: core.Undecided, Detail: "no State = Free store in handleDecline"})
+		}
+	}
 	// (offer) two clients never hold offers for one address: the lookup that allocIPOffer relies on sees outstanding
 	// offers (IPOffer of a lease in state Discover), or the commit of an offer in handleRequest looks the address up again
 	{
